@@ -61,7 +61,10 @@ var errAllow = []errAllowEntry{
 
 // fastjson accessors fail only when the value has another JSON type; a
 // discarded error is accepted only under a test of that type on the same receiver.
-var fastjsonAccessor = map[string]string{"Array": "TypeArray", "Object": "TypeObject", "StringBytes": "TypeString", "Float64": "TypeNumber", "Int": "TypeNumber", "Int64": "TypeNumber", "Uint": "TypeNumber", "Uint64": "TypeNumber"}
+// The number accessors (Float64, Int, …) are deliberately absent: fastjson's tokenizer accepts any run of number
+// characters as TypeNumber ("1.2.3", "--5") and only the conversion reports the syntax error, so their error is real
+// even under a Type() guard (audit H5-1).
+var fastjsonAccessor = map[string]string{"Array": "TypeArray", "Object": "TypeObject", "StringBytes": "TypeString"}
 
 func fastjsonGuarded(info *types.Info, s *errflow.Site) (bool, string) {
 	f, ok := core.Callee(info, s.Call).(*types.Func)
